@@ -236,6 +236,65 @@ def contained(seq, container, id="r"):
 
 
 CONTAINERS = ["seq", "mutable", "annotated"]
+ROUTES = ["fresh", "rotated-back", "rc-twice", "genbank", "rotated-rc-rotated", "reassigned-after-rotation", "reassigned-after-rc",
+          "source-edited-later"]
+
+
+KEEP = []       # source records of the "source-edited-later" route stay referenced
+
+
+def produced(seq, route, id="r"):
+    """A fully annotated CircularRecord denoting plasmid `seq`, PRODUCED along one of several routes through the library (or
+    through GenBank text), so that the same content comes with another internal spelling: locations past the end or with
+    negative starts, re-sorted features, re-parsed qualifiers and annotations."""
+    import io
+    from Bio import SeqIO
+    n = len(seq)
+    if route == "fresh" or n < 4:
+        return contained(seq, "annotated", id)
+    if route == "rotated-back":
+        a = max(1, n // 3)
+        return contained(rm.rot_right(seq, a), "annotated", id) >> (n - a)
+    if route == "rc-twice":
+        r = contained(seq, "annotated", id)
+        return r.reverse_complement(id=True, name=True, description=True, annotations=True, dbxrefs=True).reverse_complement(
+            id=True, name=True, description=True, annotations=True, dbxrefs=True)
+    if route == "rotated-rc-rotated":
+        a = max(1, n // 4)
+        r = (contained(rm.rot_right(rm.revcomp(seq), a), "annotated", id) >> (n - a)).reverse_complement(id=True, name=True, annotations=True)
+        return r >> 2 << 2
+    if route in ("reassigned-after-rotation", "reassigned-after-rc", "source-edited-later"):
+        # records whose history disagrees with their present content: the sequence was assigned after the record came out of a
+        # rotation / a reverse complement (as scripts that re-origin and then correct plasmids do), or the record they were made
+        # from was edited afterwards.  Only the present content counts.
+        junk = seq[::-1] if seq[::-1] != seq else seq[1:] + seq[:1]
+        a = max(1, n // 3)
+        if route == "reassigned-after-rotation":
+            r = contained(junk, "annotated", id) >> a
+            r.seq = Seq(rm.rot_right(seq, a))
+            return r
+        if route == "reassigned-after-rc":
+            r = contained(junk, "annotated", id).reverse_complement(id=True, name=True, annotations=True)
+            r.seq = Seq(seq)
+            return r
+        src = contained(seq, "annotated", id)
+        r = src >> a
+        src.seq = Seq(junk)
+        src.features.append(mk_feature([(0, 2, 1)], fid="later1"))
+        src.id = "changed-later"
+        KEEP.append(src)
+        return r
+    if route == "genbank":
+        feats = [mk_feature([(1, min(5, n), 1)], fid="g0"), mk_feature([(0, 2, -1)], type="CDS", fid="g1"),
+                 mk_feature([(n - 2, n, 1), (0, 2, 1)], type="CDS", fid="g2"), mk_feature([(1, 3, 1)], type="fuzzy_region", fid="g3")]
+        r = CircularRecord(Seq(seq), id=id, name=id[:16], description="d", features=feats,
+                           annotations={"topology": "circular", "molecule_type": "DNA", "date": "01-JAN-2020", "keywords": ["k"]})
+        buf = io.StringIO()
+        SeqIO.write(r, buf, "genbank")
+        back = CircularRecord(SeqIO.read(io.StringIO(buf.getvalue()), "genbank"))
+        back.id = id
+        return back
+    raise ValueError(route)
 
 
 def presentations(seq, id="r"):
